@@ -113,6 +113,19 @@ def link_annotations(spans):
     return out
 
 
+META = ["\\1", "\\g<0>", "\\", "\\n", "{0}", "{tag}", "%s", "$&", "\\2", "{", "}}", "&amp;"]
+
+
+def meta_annotations(spans, rng):
+    """Before/after strings that contain what a template engine would interpret (regex group references
+    and escapes, format fields, %-formats): they must come out literally."""
+    out = []
+    for a, b in spans:
+        _LINK_ID[0] += 1
+        out.append(((a, b), f"«{_LINK_ID[0]}{rng.choice(META)}»", f"«/{rng.choice(META)}»"))
+    return out
+
+
 def strip_sentinels(s):
     return SENT.sub("", s)
 
